@@ -199,3 +199,13 @@ def cheap_einfo():
             with untraced():
                 real_init(self, tb, *a, **k)
         be.Traceback.__init__ = init_untraced
+
+
+def encode(digits):
+    """the code whose NDCode draws are the given (value, base) digits (used to write down replay inputs by hand)"""
+    n, off = CODEMAX, 0
+    for d, b in digits:
+        w = n // b
+        off += d * w
+        n = w
+    return off
